@@ -51,7 +51,7 @@ class ExactModel(gpytorch.models.ExactGP):
         bs = torch.Size(batch_shape)
         self.fam = fam
         n = X.shape[-2] if X.dim() > 1 else X.shape[0]
-        if fam in ("fixednoise", "fixednoise_learn"):
+        if fam in ("fixednoise", "fixednoise_learn", "fixednoise_sgpr"):
             if noise is None:
                 noise = 0.05 + 0.1 * torch.arange(n, dtype=F64) / n
             lik = gpytorch.likelihoods.FixedNoiseGaussianLikelihood(
@@ -81,6 +81,9 @@ class ExactModel(gpytorch.models.ExactGP):
         elif fam == "kiss_auto":  # no grid_bounds: the grid is fitted to the data it sees (and re-fitted when inputs leave its range)
             self.covar_module = K.ScaleKernel(K.GridInterpolationKernel(K.RBFKernel(), grid_size=10, num_dims=d))
         elif fam == "sgpr":
+            g = util.gen(seed, "Z")
+            self.covar_module = K.InducingPointKernel(base, inducing_points=util.rand(g, 3, d), likelihood=lik)
+        elif fam == "fixednoise_sgpr":  # SGPR with a per-point (heteroskedastic, fixed) noise
             g = util.gen(seed, "Z")
             self.covar_module = K.InducingPointKernel(base, inducing_points=util.rand(g, 3, d), likelihood=lik)
         elif fam == "sgpr2":  # two inducing-point kernels: two added loss terms registered under the same local name
